@@ -410,11 +410,23 @@ const (
 	c12close  = 0 // read the response, then close
 	c12hijack = 1 // handler hijacks; client reads the response, releases the hijack handler, waits for EOF
 	c12abort  = 2 // close right after writing the request
+	c12span   = 3 // phase-0 client whose request handler stays in the handler across the idle gap and the burst (its worker is busy while the idle ones are retired)
+)
+
+// c12maxIdle: Server.MaxIdleWorkerDuration is left at its default (10 s): the pool's cleaner wakes every 10 s of
+// virtual time and retires workers idle for more than 10 s, i.e. a worker released at t=0 goes at t=20.
+// Gaps: c12gapLong lets every idle worker be retired; c12gapShort lets the cleaner run once without retiring anybody.
+// (The odd half seconds keep the harness timers off the cleaner's 10 s grid: no timer ties.)
+const (
+	c12maxIdle  = 10 * time.Second
+	c12gapLong  = 2*c12maxIdle + 2500*time.Millisecond
+	c12gapShort = c12maxIdle/2 + 2500*time.Millisecond
 )
 
 type c12client struct {
-	ip   byte
-	mode int
+	ip    byte
+	mode  int
+	phase int // 0 = warm-up (before the idle gap), 1 = burst after the idle gap; histories without a gap are all phase 0
 }
 
 type c12sp struct {
@@ -427,6 +439,10 @@ type c12sp struct {
 	staggered bool // client i+1 starts only when client i has finished (sequential reuse of the slots)
 	ordered   bool // client i+1 dials only after client i's dial returned (the acceptor serialises arrivals anyway)
 	oneByOne  bool // client i+1 dials only after client i has been served (handler entered), rejected or is gone
+	// idle > 0: a two-phase history. The phase-0 clients run to quiescence, then nothing arrives for idle (virtual
+	// time: every timer of the server that is due fires, in particular the worker pool's cleaner), then the phase-1
+	// clients arrive. (staggered / ordered / oneByOne / gate relate clients of the same phase.)
+	idle time.Duration
 }
 
 type c12cn struct {
@@ -459,6 +475,9 @@ type c12obs struct {
 	serveDone           bool
 	serveRet            error
 	clientsDone         int
+	phase               int    // 1 once the idle gap is over
+	retired             int    // threads that ended during the idle gap (= idle workers retired by the pool's cleaner)
+	midSig, mid         string // counters not back to zero at the quiescence before the idle gap
 	ticks               int // watchdog: virtual minutes during which nothing could run
 	stuck               string
 }
@@ -486,16 +505,27 @@ func c12server(p c12sp) func() {
 			if o.running > o.maxRunning {
 				o.maxRunning = o.running
 			}
-			if p.gate {
+			switch {
+			case p.clients[i].mode == c12span:
+				mcrt.Covered("handler-spans-idle-gap")
+				mcrt.WaitUntil("span-gate", func() bool {
+					for j := 0; j < n; j++ {
+						if p.clients[j].phase == 1 && !settled(j) {
+							return false
+						}
+					}
+					return o.phase >= 1
+				})
+			case p.gate:
 				mcrt.WaitUntil("handler-gate", func() bool {
 					for j := 0; j < n; j++ {
-						if j != i && !settled(j) {
+						if j != i && p.clients[j].phase == p.clients[i].phase && !settled(j) {
 							return false
 						}
 					}
 					return true
 				})
-			} else {
+			default:
 				mcrt.Yield()
 			}
 			if p.clients[i].mode == c12hijack {
@@ -617,13 +647,17 @@ func c12server(p c12sp) func() {
 				defer wg.Done()
 				cn := &o.conns[i]
 				defer func() { cn.done = true; o.clientsDone++ }()
-				if p.staggered && i > 0 {
+				if p.clients[i].phase > 0 {
+					mcrt.WaitUntil("idle-gap-over", func() bool { return o.phase >= p.clients[i].phase })
+				}
+				samePhase := i > 0 && p.clients[i-1].phase == p.clients[i].phase
+				if p.staggered && samePhase {
 					mcrt.WaitUntil("previous-client-finished", func() bool { return o.conns[i-1].done })
 				}
-				if p.ordered && i > 0 {
+				if p.ordered && samePhase {
 					mcrt.WaitUntil("previous-client-dialed", func() bool { return o.conns[i-1].dialed || o.conns[i-1].done })
 				}
-				if p.oneByOne && i > 0 {
+				if p.oneByOne && samePhase {
 					mcrt.WaitUntil("previous-client-settled", func() bool { return settled(i - 1) })
 				}
 				c, err := dial(i)
@@ -677,6 +711,41 @@ func c12server(p c12sp) func() {
 		// advances when every other thread is blocked or finished. (The scheduler's own deadlock report is avoided on
 		// purpose: at the time of writing it hangs when the last runnable thread is one that is just exiting.)
 		mtime.Sleep(5 * time.Second)
+		if p.idle > 0 {
+			spans := 0
+			for i := range p.clients {
+				c := &o.conns[i]
+				switch {
+				case p.clients[i].phase != 0:
+				case p.clients[i].mode == c12span:
+					spans++
+					if !c.entered {
+						o.stuck = "clients"
+						return
+					}
+				case !c.done:
+					o.stuck = "clients"
+					return
+				}
+			}
+			if spans == 0 { // every connection so far is closed or hijacked and released: the counters must be back already
+				hist := "before the idle gap"
+				if v := s.GetCurrentConcurrency(); v != 0 {
+					o.midSig, o.mid = "concurrency-counter-nonzero-at-quiescence", fmt.Sprintf("%s: GetCurrentConcurrency() = %d", hist, v)
+				} else if v := s.GetOpenConnectionsCount(); v != o.baseOpen {
+					o.midSig, o.mid = "open-connections-count-not-back-to-baseline", fmt.Sprintf("%s: GetOpenConnectionsCount() = %d, %d before the first connection", hist, v, o.baseOpen)
+				} else if ms := c12mapString(s.perIPConnCounter.m); ms != "" {
+					o.midSig, o.mid = "per-ip-counts-nonzero-at-quiescence", fmt.Sprintf("%s: perIPConnCounter.m = {%s}", hist, ms)
+				}
+			}
+			live := mcrt.LiveThreads()
+			mtime.Sleep(p.idle)
+			if o.retired = live - mcrt.LiveThreads(); o.retired > 0 {
+				mcrt.Covered(fmt.Sprintf("idle-workers-retired-%d", o.retired))
+			}
+			o.phase = 1
+			mtime.Sleep(5 * time.Second)
+		}
 		if o.clientsDone != n {
 			o.stuck = "clients"
 			return
@@ -715,6 +784,14 @@ func c12serverCheck(x *mcrt.Exec) (string, string, string) {
 	}
 	cls := fmt.Sprintf("%s maxHandlers=%d", strings.Join(sts, ","), o.maxRunning)
 	desc := fmt.Sprintf("serve=%v Concurrency=%d MaxConnsPerIP=%d keepHijacked=%v", p.serve, p.conc, p.maxip, p.keep)
+	if p.idle > 0 {
+		var ph []string
+		for i, c := range p.clients {
+			ph = append(ph, fmt.Sprintf("conn%d=phase%d/%s", i, c.phase, c12modeName(c.mode)))
+		}
+		cls += fmt.Sprintf(" retired=%d", o.retired)
+		desc += fmt.Sprintf(" history: phase-0 connections, %v without arrivals (%d idle workers retired), then the phase-1 connections [%s]", p.idle, o.retired, strings.Join(ph, " "))
+	}
 	if x.Out.Invariant != "" {
 		sig, what := c12invSplit(x.Out.Invariant)
 		return cls, sig, desc + ": " + what
@@ -783,6 +860,9 @@ func c12serverCheck(x *mcrt.Exec) (string, string, string) {
 		return cls, "", ""
 	}
 	hist := desc + " outcomes=" + strings.Join(sts, ",")
+	if o.midSig != "" {
+		return cls, o.midSig, hist + " " + o.mid
+	}
 	if o.endConc != 0 {
 		return cls, "concurrency-counter-nonzero-at-quiescence", fmt.Sprintf("%s: every connection is closed or hijacked-and-released, GetCurrentConcurrency() = %d", hist, o.endConc)
 	}
@@ -805,18 +885,395 @@ func c12serverCheck(x *mcrt.Exec) (string, string, string) {
 	return cls, "", ""
 }
 
-func c12modeName(m int) string { return []string{"close", "hijack", "abort"}[m] }
+// ---------------------------------------------------------------------------------------------------------------
+// history scenarios: the real Server.Serve over a scripted listener. The driver (main thread) plays a history of
+// operations; connections are scripted (one request already in the buffer, then EOF), so there are no client threads:
+// the threads are the acceptor, the pool's workers and cleaner, hijack handlers and the driver. That keeps a history of
+// 5-8 connections with idle periods between them affordable.
+//
+//	a / b   a connection from 10.0.0.1 / 10.0.0.2 arrives carrying one request (its handler waits for an 'f')
+//	e       a connection from 10.0.0.1 arrives and the client is already gone (EOF before a request)
+//	h       like a, the handler hijacks; the hijack handler waits for a further 'f'
+//	f       let the oldest still-held handler (request handler or hijack handler) go on
+//	g / l   nothing arrives for c12gapShort / c12gapLong of virtual time: everything runs until it blocks, then the
+//	        server's timers fire (g: the pool's cleaner runs, nobody is old enough; l: every idle worker is retired)
+//
+// After the history: all handlers are let go, quiescence is checked, then Concurrency+1 probe connections arrive at once
+// (the limit must still be the limit after this history), are let go, and quiescence is checked again.
+
+type c12sconn struct {
+	ip     byte
+	idx    int
+	in     []byte
+	out    []byte
+	closed int
+}
+
+func (c *c12sconn) Read(p []byte) (int, error) {
+	if c.closed > 0 {
+		return 0, net.ErrClosed
+	}
+	if len(c.in) > 0 {
+		n := copy(p, c.in)
+		c.in = c.in[n:]
+		return n, nil
+	}
+	return 0, io.EOF
+}
+
+func (c *c12sconn) Write(p []byte) (int, error) {
+	if c.closed > 0 {
+		return 0, net.ErrClosed
+	}
+	c.out = append(c.out, p...)
+	return len(p), nil
+}
+func (c *c12sconn) Close() error         { c.closed++; return nil }
+func (c *c12sconn) LocalAddr() net.Addr  { return &net.TCPAddr{IP: net.IPv4(127, 0, 0, 1), Port: 80} }
+func (c *c12sconn) RemoteAddr() net.Addr { return &net.TCPAddr{IP: net.IPv4(10, 0, 0, c.ip), Port: 1000 + c.idx} }
+func (c *c12sconn) SetDeadline(time.Time) error      { return nil }
+func (c *c12sconn) SetReadDeadline(time.Time) error  { return nil }
+func (c *c12sconn) SetWriteDeadline(time.Time) error { return nil }
+
+type c12sln struct {
+	q      []net.Conn
+	closed bool
+}
+
+func (l *c12sln) Accept() (net.Conn, error) {
+	mcrt.WaitUntil("accept", func() bool { return len(l.q) > 0 || l.closed })
+	if len(l.q) > 0 {
+		c := l.q[0]
+		l.q = l.q[1:]
+		return c, nil
+	}
+	return nil, io.EOF
+}
+func (l *c12sln) Close() error   { l.closed = true; return nil }
+func (l *c12sln) Addr() net.Addr { return &net.TCPAddr{IP: net.IPv4(127, 0, 0, 1), Port: 80} }
+
+type c12hp struct {
+	conc, maxip int
+	prefix      string // the first operations of the history
+	free        int    // then this many further operations, each one any letter of alphabet
+	alphabet    string
+}
+
+type c12hc struct {
+	kind       byte
+	probe      bool
+	c          *c12sconn
+	entered    bool
+	exited     bool
+	hjEntered  bool
+	hjDone     bool
+	workerDone bool
+	go1, go2   bool // 'f' tokens: request handler may go on / hijack handler may go on
+}
+
+type c12hobs struct {
+	p                   c12hp
+	hist                string
+	conns               []*c12hc
+	running, maxRunning int
+	retired             int
+	baseOpen            int32
+	quietSig, quiet     string
+	serveDone           bool
+	stuck               string
+}
+
+const c12settle = 1001 * time.Millisecond
+
+func c12history(p c12hp) func() {
+	return func() {
+		workerChanCap = 1
+		o := &c12hobs{p: p}
+		mcrt.SetUserData(o)
+		ops := p.prefix
+		for i := 0; i < p.free; i++ {
+			ops += string(p.alphabet[mcrt.Pick(len(p.alphabet), "op")])
+		}
+		o.hist = ops
+		s := &Server{Concurrency: p.conc, MaxConnsPerIP: p.maxip,
+			NoDefaultDate: true, NoDefaultServerHeader: true, NoDefaultContentType: true, Logger: c12nopLogger{}}
+		s.Handler = func(ctx *RequestCtx) {
+			cn := o.conns[ctx.RemoteAddr().(*net.TCPAddr).Port-1000]
+			cn.entered = true
+			o.running++
+			if o.running > o.maxRunning {
+				o.maxRunning = o.running
+			}
+			mcrt.WaitUntil("handler-held", func() bool { return cn.go1 })
+			if cn.kind == 'h' {
+				ctx.Hijack(func(net.Conn) {
+					cn.hjEntered = true
+					mcrt.Covered("hijacked")
+					mcrt.WaitUntil("hijack-held", func() bool { return cn.go2 })
+					cn.hjDone = true
+				})
+			}
+			ctx.SetBodyString("ok")
+			o.running--
+			cn.exited = true
+		}
+		byConn := map[net.Conn]int{}
+		s.ConnState = func(c net.Conn, st ConnState) {
+			i, ok := byConn[c]
+			if !ok {
+				if st == StateClosed {
+					return // turned away before it was ever tracked
+				}
+				ta, _ := c.RemoteAddr().(*net.TCPAddr)
+				if ta == nil {
+					return
+				}
+				i = ta.Port - 1000
+				byConn[c] = i
+			}
+			if st == StateClosed || st == StateHijacked {
+				o.conns[i].workerDone = true
+				delete(byConn, c)
+			}
+		}
+		mcrt.Invariant(func() string {
+			if o.running > p.conc {
+				return fmt.Sprintf("handlers-exceed-concurrency|%d request handlers run at once, Concurrency=%d", o.running, p.conc)
+			}
+			served := 0
+			var perIP [5]int
+			for _, cn := range o.conns {
+				if !cn.entered {
+					continue
+				}
+				if cn.c.closed == 0 {
+					perIP[cn.c.ip]++ // admitted, and the server has not closed it yet (it closes before it unregisters)
+				}
+				if !cn.workerDone && !cn.hjEntered {
+					served++
+				}
+			}
+			if served > p.conc {
+				return fmt.Sprintf("served-conns-exceed-concurrency|%d connections are being served (request handler entered, worker has not reported StateClosed/StateHijacked), Concurrency=%d; Server.concurrency=%d", served, p.conc, c12peek32(unsafe.Pointer(&s.concurrency)))
+			}
+			if p.maxip > 0 {
+				for ip, k := range perIP {
+					if k > p.maxip {
+						return fmt.Sprintf("conns-per-ip-exceed-limit|%d admitted connections from 10.0.0.%d are open at once, MaxConnsPerIP=%d", k, ip, p.maxip)
+					}
+				}
+			}
+			if v := c12peek32(unsafe.Pointer(&s.concurrency)); v < 0 {
+				return fmt.Sprintf("concurrency-counter-underflow|Server.concurrency = %d", uint32(v))
+			}
+			if v := c12peek32(unsafe.Pointer(&s.open)); v < 0 {
+				return fmt.Sprintf("open-counter-underflow|Server.open = %d", v)
+			}
+			return ""
+		})
+		ln := &c12sln{}
+		mcrt.GoNamed("serve", func() {
+			s.Serve(ln)
+			o.serveDone = true
+		})
+		mcrt.WaitUntil("listening", func() bool { return c12peek32(unsafe.Pointer(&s.open)) == 1 })
+		o.baseOpen = s.GetOpenConnectionsCount()
+		arrive := func(kind byte, ip byte, probe bool) {
+			c := &c12sconn{ip: ip, idx: len(o.conns)}
+			if kind != 'e' {
+				c.in = append([]byte(nil), c12req...)
+			}
+			o.conns = append(o.conns, &c12hc{kind: kind, probe: probe, c: c})
+			ln.q = append(ln.q, c)
+			mcrt.Yield() // the arrival is an event of its own: the acceptor may take it before the driver goes on
+		}
+		letGo := func() bool {
+			for _, cn := range o.conns {
+				if !cn.go1 {
+					cn.go1 = true
+					return true
+				}
+				if cn.kind == 'h' && !cn.go2 {
+					cn.go2 = true
+					return true
+				}
+			}
+			return false
+		}
+		quiet := func(when string) bool {
+			for {
+				if !letGo() {
+					break
+				}
+			}
+			mtime.Sleep(c12settle)
+			for i, cn := range o.conns {
+				if cn.c.closed == 0 {
+					o.stuck = fmt.Sprintf("connection %d (%c) is still open %s although every handler was let go and nothing can run", i, cn.kind, when)
+					return false
+				}
+			}
+			if v := s.GetCurrentConcurrency(); v != 0 {
+				o.quietSig, o.quiet = "concurrency-counter-nonzero-at-quiescence", fmt.Sprintf("%s: GetCurrentConcurrency() = %d", when, v)
+			} else if v := s.GetOpenConnectionsCount(); v != o.baseOpen {
+				o.quietSig, o.quiet = "open-connections-count-not-back-to-baseline", fmt.Sprintf("%s: GetOpenConnectionsCount() = %d, %d before the first connection", when, v, o.baseOpen)
+			} else if ms := c12mapString(s.perIPConnCounter.m); ms != "" {
+				o.quietSig, o.quiet = "per-ip-counts-nonzero-at-quiescence", fmt.Sprintf("%s: perIPConnCounter.m = {%s}", when, ms)
+			}
+			return o.quietSig == ""
+		}
+		for _, op := range []byte(ops) {
+			switch op {
+			case 'a', 'e', 'h':
+				arrive(op, 1, false)
+			case 'b':
+				arrive('a', 2, false)
+			case 'f':
+				letGo()
+				mcrt.Yield()
+			case 'g':
+				mtime.Sleep(c12gapShort)
+			case 'l':
+				mtime.Sleep(c12settle)
+				live := mcrt.LiveThreads()
+				mtime.Sleep(c12gapLong)
+				if k := live - mcrt.LiveThreads(); k > 0 {
+					o.retired += k
+					mcrt.Covered("idle-workers-retired")
+				}
+			}
+		}
+		if !quiet("after the history") {
+			return
+		}
+		for _, cn := range o.conns {
+			if st, _, ok := c12parseResponse(cn.c.out); ok && st != StatusOK {
+				mcrt.Covered(fmt.Sprint("history-rejected-", st))
+			}
+		}
+		for k := 0; k <= p.conc; k++ {
+			ip := byte(1)
+			if p.maxip > 0 {
+				ip = byte(k + 1)
+			}
+			arrive('a', ip, true)
+		}
+		mtime.Sleep(c12settle)
+		if !quiet("after the probe connections") {
+			return
+		}
+		ln.Close()
+		mtime.Sleep(c12settle)
+		if !o.serveDone {
+			o.stuck = "Serve has not returned after the listener was closed"
+		}
+	}
+}
+
+func c12historyCheck(x *mcrt.Exec) (string, string, string) {
+	o, _ := x.UserData.(*c12hobs)
+	if o == nil || x.Out.Panic != "" || x.Out.Horizon || x.Out.Fatal != "" {
+		return "", "", ""
+	}
+	p := o.p
+	var sts []string
+	nprobe := 0
+	for _, cn := range o.conns {
+		st, _, ok := c12parseResponse(cn.c.out)
+		switch {
+		case cn.probe:
+			nprobe++
+			if ok && st == StatusOK {
+				nprobe += 100
+			}
+			continue
+		case ok:
+			sts = append(sts, fmt.Sprint(st))
+		case cn.kind == 'e' && len(cn.c.out) == 0:
+			sts = append(sts, "gone")
+		default:
+			sts = append(sts, "?")
+		}
+	}
+	cls := fmt.Sprintf("%s probes-served=%d/%d maxHandlers=%d retired=%d", strings.Join(sts, ","), nprobe/100, nprobe%100, o.maxRunning, o.retired)
+	desc := fmt.Sprintf("Serve, Concurrency=%d MaxConnsPerIP=%d, history %q (a/b: request from 10.0.0.1/.2, e: client gone, h: hijacking request, f: oldest held handler goes on, g/l: %v/%v without arrivals; %d idle workers retired)",
+		p.conc, p.maxip, o.hist, c12gapShort, c12gapLong, o.retired)
+	if x.Out.Invariant != "" {
+		sig, what := c12invSplit(x.Out.Invariant)
+		return cls, sig, desc + ": " + what
+	}
+	if x.Out.Deadlock {
+		return "", "", ""
+	}
+	for i, cn := range o.conns {
+		c := cn.c
+		who := fmt.Sprintf("%s: connection %d (10.0.0.%d, %c)", desc, i, c.ip, cn.kind)
+		if cn.probe {
+			who += " [probe after the history]"
+		}
+		st, l, ok := c12parseResponse(c.out)
+		if !ok {
+			if cn.kind == 'e' && len(c.out) == 0 {
+				continue
+			}
+			if c.closed == 0 {
+				continue // reported as stuck below
+			}
+			if st == StatusServiceUnavailable || st == StatusTooManyRequests {
+				return cls, "rejected-response-incomplete", fmt.Sprintf("%s was turned away with an incomplete response %s", who, vrt.Q(c.out))
+			}
+			return cls, "connection-dropped-without-response", fmt.Sprintf("%s was closed after %s", who, vrt.Q(c.out))
+		}
+		switch st {
+		case StatusServiceUnavailable, StatusTooManyRequests:
+			if st == StatusTooManyRequests && p.maxip == 0 {
+				return cls, "rejected-429-without-per-ip-limit", who
+			}
+			if cn.entered {
+				return cls, "rejected-conn-was-served", fmt.Sprintf("%s got %d although its request handler ran", who, st)
+			}
+			if l != len(c.out) {
+				return cls, "rejected-conn-not-closed", fmt.Sprintf("%s got a complete %d and then %d more bytes", who, st, len(c.out)-l)
+			}
+			if c.closed == 0 && o.stuck != "" {
+				return cls, "rejected-conn-not-closed", fmt.Sprintf("%s got a complete %d and was never closed", who, st)
+			}
+		case StatusOK:
+			if !cn.entered {
+				return cls, "served-conn-without-handler", who
+			}
+		default:
+			return cls, fmt.Sprintf("unexpected-status-%d", st), who
+		}
+	}
+	if o.stuck != "" {
+		if strings.HasPrefix(o.stuck, "Serve ") {
+			return cls, "serve-did-not-return-after-listener-close", desc
+		}
+		return cls, "conn-not-closed-at-quiescence", desc + ": " + o.stuck
+	}
+	if o.quietSig != "" {
+		return cls, o.quietSig, desc + " " + o.quiet
+	}
+	return cls, "", ""
+}
+
+func c12modeName(m int) string { return []string{"close", "hijack", "abort", "span"}[m] }
 
 func TestVerif_C12(t *testing.T) {
 	r := vrt.Begin(t, "C12", "model_checking")
 	defer r.End()
 	r.Rule("(a) kernels: 3 threads x {wrapPerIPConn, hold (one step | until the others tried), Close once|twice} on 1-2 IPv4 addresses with MaxConnsPerIP 1-2; bare perIPConnCounter Register/Unregister x2 per thread; " +
 		"tryAcquireConcurrency/releaseConcurrency x1-2 per thread with Concurrency 1-2. (b) real Server via Serve(InmemoryListener) and via ServeConn, Concurrency 1-2, MaxConnsPerIP 0-2, 2-3 client threads from 1-2 addresses, " +
-		"each dial/write/read then close | hijack+release | abort; handlers held on a gate until every other client is served, rejected or gone (or free-running / staggered). All schedules up to the preemption bound. " +
+		"each dial/write/read then close | hijack+release | abort; handlers held on a gate until every other client is served, rejected or gone (or free-running / staggered); two-phase histories under Serve: 1-2 warm-up connections (closed, hijacked, aborted, or one whose handler stays busy), then 7.5 s | 22.5 s of virtual time without arrivals (the worker pool's cleaner runs; after 22.5 s every idle worker has been retired), then a burst of Concurrency+1 connections. " +
+		"(c) histories: Serve over a scripted listener and scripted connections (request already buffered, then EOF; no client threads), the driver plays EVERY operation sequence of length L over an alphabet of {a,b: request connection from address 1,2 arrives and its handler is held; e: connection whose client is gone; h: hijacking request; f: the oldest held request/hijack handler goes on; g,l: 7.5 s / 22.5 s without arrivals} " +
+		"with Concurrency 1-2, MaxConnsPerIP 0-2 (quick: L=4-5 over {a,f,g,l} {a,b,f,l} {a,h,f,l}, preemption bound 0-1; thorough: L up to 6, bound up to 2, plus {a,e,f,l}); after every history all handlers are let go, quiescence is checked, Concurrency+1 probe connections arrive at once (exactly the limits must still hold), and quiescence is checked again. " +
+		"All schedules up to the preemption bound. " +
 		"Invariant in every state: running handlers <= Concurrency; connections with handler entered, not closed by the client, whose ServeConn has not returned (Serve: whose worker has not reported StateClosed/StateHijacked) <= Concurrency; such connections per IP (hijacked ones until their handler returns) <= MaxConnsPerIP; counters never negative. " +
-		"Per execution: a turned-away connection reads one complete 503/429 and then EOF; at quiescence GetCurrentConcurrency()==0, GetOpenConnectionsCount()==pre-traffic value, per-IP map empty. Non-trivial: executions with >=1 deviation")
+		"Per execution: a turned-away connection reads one complete 503/429 and then EOF (scripted connection: exactly one complete 503/429 written, closed, handler never ran); at every quiescence (before an idle gap, after the history, after the probes) GetCurrentConcurrency()==0, GetOpenConnectionsCount()==pre-traffic value, per-IP map empty. Non-trivial: executions with >=1 deviation")
 	r.Assume("mcrt shim semantics (litmus-tested)", "sync.Pool modelled as deterministic LIFO without scheduling points", "workerChanCap fixed to 1 (GOMAXPROCS>1 behaviour)",
-		"'open count back to baseline' per DESIGN 3.7: 0 under a listening Serve, -1 for a ServeConn-only server")
+		"'open count back to baseline' per DESIGN 3.7: 0 under a listening Serve, -1 for a ServeConn-only server",
+		"virtual time: idle gaps are exact and cost no wall time; MaxIdleWorkerDuration left at its default 10 s (cleaner period 10 s, a worker idle since t is retired at the first cleaner run after t+10 s)")
 	thorough := r.Thorough()
 	var scs []mcx.Scenario
 	add := func(name string, bound, horizon int, body func(), chk func(x *mcrt.Exec) (string, string, string)) {
@@ -916,6 +1373,32 @@ func TestVerif_C12(t *testing.T) {
 			}
 		}
 	}
+	// ---- two-phase histories under Serve: warm-up connections, an idle gap in which the worker pool's cleaner runs
+	// (and retires the idle workers if the gap is long enough), then a burst that must still be held to the limits.
+	ph := func(warm []c12client, burst []c12client) []c12client {
+		out := append([]c12client{}, warm...)
+		for _, c := range burst {
+			c.phase = 1
+			out = append(out, c)
+		}
+		return out
+	}
+	phased := []sc{
+		// one worker created, used, retired; then Concurrency+1 arrivals
+		{c12sp{conc: 1, maxip: 0, gate: true, idle: c12gapLong, clients: ph(cl(1, c12close), cl(1, c12close, 1, c12close))}, 0, 0},
+		{c12sp{conc: 1, maxip: 0, gate: true, idle: c12gapLong, clients: ph(cl(1, c12close), cl(1, c12close, 1, c12close))}, 1, 1},
+		{c12sp{conc: 1, maxip: 1, gate: true, idle: c12gapLong, clients: ph(cl(1, c12hijack), cl(1, c12close, 2, c12close))}, 0, 1},
+		// a busy worker spans the gap while the other one is retired
+		{c12sp{conc: 2, maxip: 0, gate: true, idle: c12gapLong, clients: ph(cl(1, c12close, 1, c12span), cl(1, c12close, 1, c12close))}, 0, 1},
+		// the cleaner runs but nobody is old enough to go
+		{c12sp{conc: 1, maxip: 0, gate: true, idle: c12gapShort, clients: ph(cl(1, c12close), cl(1, c12close, 1, c12close))}, 0, 1},
+		// free-running burst after an aborted warm-up connection
+		{c12sp{conc: 1, maxip: 2, gate: false, idle: c12gapLong, clients: ph(cl(1, c12abort), cl(1, c12close, 1, c12hijack))}, 0, 1},
+	}
+	for _, e := range phased {
+		e.p.serve, e.p.oneByOne = true, true
+		list = append(list, e)
+	}
 	if os.Getenv("C12_ALL") != "" {
 		thorough = true
 	}
@@ -926,7 +1409,11 @@ func TestVerif_C12(t *testing.T) {
 		}
 		var cs []string
 		for _, c := range e.p.clients {
-			cs = append(cs, fmt.Sprintf("ip%d-%s", c.ip, c12modeName(c.mode)))
+			nm := fmt.Sprintf("ip%d-%s", c.ip, c12modeName(c.mode))
+			if c.phase > 0 {
+				nm += "@after"
+			}
+			cs = append(cs, nm)
 		}
 		how := "free"
 		if e.p.gate {
@@ -949,12 +1436,71 @@ func TestVerif_C12(t *testing.T) {
 		if e.p.keep {
 			name += "/keephijacked"
 		}
+		if e.p.idle > 0 {
+			name += fmt.Sprintf("/idle-%v", e.p.idle)
+		}
 		if seen[name] {
 			continue
 		}
 		seen[name] = true
 		add(name, e.bound, 6000, c12server(e.p), c12serverCheck)
 	}
+	// ---- histories over the scripted listener
+	type hs struct {
+		conc, maxip int
+		alphabet    string
+		length      int
+		bound       int
+		tier        int
+	}
+	hists := []hs{
+		// quick (and thorough)
+		{1, 0, "aflg", 5, 0, 0},
+		{1, 0, "aflg", 4, 1, 0},
+		{1, 1, "abfl", 4, 0, 0},
+		{1, 0, "ahfl", 4, 0, 0},
+		{2, 0, "aflg", 5, 0, 0},
+		{2, 1, "abfl", 4, 0, 0},
+		// thorough: longer histories, one more preemption, client-gone and hijacking arrivals with two workers
+		{1, 0, "aflg", 6, 0, 1},
+		{1, 0, "aflg", 5, 1, 1},
+		{1, 0, "aflg", 3, 2, 1},
+		{1, 1, "abfl", 5, 0, 1},
+		{1, 1, "abfl", 4, 1, 1},
+		{2, 1, "abfl", 5, 0, 1},
+		{1, 2, "ahfl", 4, 1, 1},
+		{2, 0, "aflg", 6, 0, 1},
+		{2, 0, "aflg", 4, 1, 1},
+		{2, 0, "aefl", 5, 0, 1},
+		{2, 2, "ahfl", 5, 0, 1},
+		{2, 1, "abfl", 4, 1, 1},
+	}
+	for _, h := range hists {
+		if h.tier == 1 && !thorough || os.Getenv("C12_HIST") != "" {
+			continue
+		}
+		// one scenario per first operation (they run in parallel); the remaining length-1 operations are free choices
+		for _, first := range h.alphabet {
+			add(fmt.Sprintf("history/conc%d/maxip%d/%c+%dx[%s]/b%d", h.conc, h.maxip, first, h.length-1, h.alphabet, h.bound), h.bound, 8000,
+				c12history(c12hp{conc: h.conc, maxip: h.maxip, prefix: string(first), free: h.length - 1, alphabet: h.alphabet}), c12historyCheck)
+		}
+	}
+	if hs := os.Getenv("C12_HIST"); hs != "" { // sizing aid: conc,maxip,prefix,free,alphabet,bound;...
+		for _, e := range strings.Split(hs, ";") {
+			f := strings.Split(e, ",")
+			conc, _ := strconv.Atoi(f[0])
+			maxip, _ := strconv.Atoi(f[1])
+			free, _ := strconv.Atoi(f[3])
+			bound, _ := strconv.Atoi(f[5])
+			add(fmt.Sprintf("history/conc%d/maxip%d/%s+%dx[%s]/b%d", conc, maxip, f[2], free, f[4], bound), bound, 8000,
+				c12history(c12hp{conc: conc, maxip: maxip, prefix: f[2], free: free, alphabet: f[4]}), c12historyCheck)
+		}
+	}
 	r.Set("kernel_preemption_bound", fmt.Sprint(kb))
+	// scenarios are dealt round-robin to the worker processes, each of which has its own time cap: the many small history
+	// scenarios go first so that an overloaded machine cuts into the tail of one big scenario rather than skipping them
+	sort.SliceStable(scs, func(i, j int) bool {
+		return strings.HasPrefix(scs[i].Name, "history/") && !strings.HasPrefix(scs[j].Name, "history/")
+	})
 	mcx.Run(r, scs)
 }
